@@ -19,4 +19,10 @@ CLAIMED = {
         "note": "Trusted: Lean kernel, translator, correspondence harness; serde (de)serialisation of headers; theorem domain WF excludes a custom map naming alg/b64.",
         "technique": "Lean 4 proof (decision logic stated as iff against an independent spec, over regenerated tables) + correspondence",
     },
+    "C13": {
+        "text": "Lean 4 theorems: the proleptic Gregorian calendar model is a bijection between day numbers and valid civil dates (yearOf correct for every n by omega, complete month/day tables by decide +kernel); MIN/MAX are the calendar's own range ends; the year gate regenerated from from_unix is exactly [MIN, MAX]; parse never panics and accepts only instants in range; an accepted string denotes the instant of its fields at its offset (leap second as :59); formatting is total on the range, has the fixed 20-byte shape, and format-then-parse is the identity for EVERY instant in range; checked_add/sub = integer arithmetic, none exactly outside the range. The RFC 3339 parser of the time crate is transliterated; parse's offset normalisation and gates are regenerated from timestamp.rs. Correspondence drives boundary-dense and random strings/seconds/durations through the real Timestamp API.",
+        "design_ref": "DESIGN.md §7.13",
+        "note": "Trusted: Lean kernel, translator, correspondence harness; the `time` crate is modelled (parser transliterated, calendar re-derived), not verified; Ord and serde by correspondence.",
+        "technique": "Lean 4 proof (omega + complete finite tables + byte-level round trip) over regenerated gates + correspondence",
+    },
 }
